@@ -10,8 +10,13 @@ RULE = ('E1: every scalar of the boundary alphabet S (every ladder boundary '
         'ordered tree shape with <= N nodes x every list/dict labelling x 11 '
         'leaf kinds; every scalar in every leaf of every tree <= 4 nodes; '
         'all 2^k list/dict chains for k <= K; depth 16/31/32 canonical '
-        'chains; key alphabet. A case is (position, value); non-trivial = '
-        'everything but the integer 1 at top level.')
+        'chains; key alphabet; homogeneous arrays and tables of every element '
+        'kind (15) for every count 0..69 and 100 127 128 255 256 257 400, '
+        'all-same, cycling, and with one foreign-typed element first / '
+        'middle / last; every array of <= 3 (thorough 4) elements over 31 '
+        'values whose encodings contain type-tag letters. A case is '
+        '(position, value); non-trivial = everything but the integer 1 at '
+        'top level.')
 BOUNDS = {'quick': {'tree_nodes': 5, 'chain_depth': 10, 'max_depth': 32},
           'thorough': {'tree_nodes': 8, 'chain_depth': 14, 'max_depth': 32}}
 ASSUMPTIONS = ['interior values (other integers, strings, floats) are '
